@@ -67,14 +67,15 @@ type recorder struct {
 	// connection numbering: gid = global identity of a connection in this case (harness bookkeeping,
 	// oracles); mcid = its number in the modelled loop (loop 0), mirroring Model/Loop.v's accept order,
 	// -1 for connections served by the other loops of a multi-loop engine (oracle-only)
-	nextCid  int // next model cid
-	nextGid  int
-	fdCid    map[int]int // fd -> gid
-	gidM     map[int]int // gid -> mcid
-	nloops   int
-	accCount int            // accepts seen on the acceptor thread (round-robin target = accCount % nloops)
-	otherG   map[int64]bool // goroutines of loops 1..n-1
-	idleG    map[int64]bool // loop goroutine -> inside a blocking epoll_wait
+	nextCid     int // next model cid
+	nextGid     int
+	injectedAcc []string    // faults injected into the main reactor's accept4 calls
+	fdCid       map[int]int // fd -> gid
+	gidM        map[int]int // gid -> mcid
+	nloops      int
+	accCount    int            // accepts seen on the acceptor thread (round-robin target = accCount % nloops)
+	otherG      map[int64]bool // goroutines of loops 1..n-1
+	idleG       map[int64]bool // loop goroutine -> inside a blocking epoll_wait
 
 	// descriptor ledger (C07): descriptors created by the framework and not yet closed
 	owned    map[int]string
@@ -310,6 +311,18 @@ func (r *recorder) Before(c *vunix.Call) {
 	}
 	if r.otherG[g] && c.Name == "epoll_wait" {
 		return
+	}
+	if g == r.accG && g != 0 && (c.Name == "accept4" || c.Name == "accept") && !r.suppress {
+		// the main reactor (not modelled: its effect on the loop is the `accepted` line): transient
+		// accept4 failures; the pending connection stays queued, so a correct acceptor takes it at once
+		k := r.counters["accept0"]
+		r.counters["accept0"] = k + 1
+		for _, in := range r.injects {
+			if in.name == "accept0" && in.index == k {
+				c.Skip, c.Ret, c.Err = true, -1, errnoOf(in.kind)
+				r.injectedAcc = append(r.injectedAcc, fmt.Sprintf("accept0#%d %s", k, in.kind))
+			}
+		}
 	}
 	if !r.onLoop(g) || r.suppress {
 		return
